@@ -212,6 +212,13 @@ pub fn gen_wsdl_set_opt(ch: &mut Chooser, tag: u64, wild: bool) -> (InputSet, Ge
             files.push((fname.to_string(), sx.into_bytes()));
         }
     }
+    if wild && ch.choose("gen_repeated_member_names", 2) == 1 {
+        // structural oddities that are legal input for the generator: a sequence naming the same element twice, and
+        // an extension that re-declares an inherited element before adding its own
+        let _ = writeln!(w, "      <xs:complexType name=\"RepeatType\"><xs:sequence><xs:element name=\"alpha\" type=\"xs:string\"/><xs:element name=\"beta\" type=\"xs:int\"/><xs:element name=\"alpha\" type=\"xs:string\" minOccurs=\"0\"/><xs:element name=\"gamma\" type=\"xs:string\"/><xs:element name=\"delta\" type=\"xs:long\"/></xs:sequence></xs:complexType>");
+        let _ = writeln!(w, "      <xs:complexType name=\"BaseRepeat\"><xs:sequence><xs:element name=\"id\" type=\"xs:string\"/><xs:element name=\"kind\" type=\"xs:string\"/></xs:sequence></xs:complexType>");
+        let _ = writeln!(w, "      <xs:complexType name=\"ExtRepeat\"><xs:complexContent><xs:extension base=\"tns:BaseRepeat\"><xs:sequence><xs:element name=\"id\" type=\"xs:string\"/><xs:element name=\"segment\" type=\"xs:string\"/><xs:element name=\"tier\" type=\"xs:int\"/></xs:sequence></xs:extension></xs:complexContent></xs:complexType>");
+    }
     let token_kind = ch.choose("gen_facet", 6);
     simple_type(&mut w, "tns", "TokenCode", token_kind, ch.choose("gen_doc", 2) == 1);
     simple_type(&mut w, "tns", "RegionCode", 2, false);
